@@ -25,7 +25,7 @@ func RegisterAll() {
 	core.Register(&core.Check{
 		Property: "C04",
 		Level:    "exploration",
-		Rule: "real pace.DoPACE over a real NfcSession against the reference chip: every cell (parameter id 8..18) x (3DES, AES-128/192/256) x (GM, CAM) genuine at least 3 times incl. ground edge slices (shared x-coordinate with 1 or 2 leading zero octets, chip public coordinate with a leading zero octet), passwords from all MRZ layouts via mrz/mrzi/dg1 routes and CAN, several and unsupported PACE infos in seeded order; then faulted twins: wrong password, or exactly one chip message field altered by an on-path adversary (encrypted nonce, mapping key: other point / reflection / invalid / infinity / omitted, agreement key likewise, token flipped / truncated / omitted, encrypted CAM data flipped / omitted / extended); " +
+		Rule: "real pace.DoPACE over a real NfcSession against the reference chip: every cell (parameter id 8..18) x (3DES, AES-128/192/256) x (GM, CAM) genuine at least 3 times incl. ground edge slices (shared x-coordinate with 1 or 2 leading zero octets, chip public coordinate with a leading zero octet), passwords from all MRZ layouts via mrz/mrzi/dg1 routes and CAN, several and unsupported PACE infos in seeded order; then faulted twins: wrong password, or exactly one chip message field altered by an on-path adversary (encrypted nonce, mapping key: other point / reflection / invalid / infinity / omitted, agreement key likewise, token flipped / truncated / omitted, encrypted CAM data flipped / omitted / extended from outside, and another well-formed scalar (negated, +1, doubled) encrypted by the chip model itself); " +
 			"distinct_nontrivial counts distinct (mode, cell, password route, layout, junk infos, grinding, outcome) tuples",
 		Engines:        []core.Engine{ProtoEngine{"pace"}},
 		Assumptions:    []string{"nonce length 16 octets for every suite", "shared secret = fixed-length x-coordinate (TR-03111 FE2OS)"},
@@ -36,7 +36,7 @@ func RegisterAll() {
 	core.Register(&core.Check{
 		Property: "C05",
 		Level:    "exploration",
-		Rule: "real bac.DoBAC against the reference chip personalised from the same MRZ (TD1/TD2/TD3, short document numbers with fillers, extended document numbers, every password route), all randoms from the seed incl. counters about to wrap followed by protected traffic across the wrap; hostile 40-byte answers to EXTERNAL AUTHENTICATE: all 320 single-bit mutations (enumerated), cryptogram under another MRZ's keys, genuine cryptogram of another run, correct MAC over a wrong RND.IFD / RND.IC echo or swapped echoes (adversary knowing the keys), wrong lengths, zeros, error status, wrong password; " +
+		Rule: "real bac.DoBAC against the reference chip personalised from the same MRZ (TD1/TD2/TD3, short document numbers with fillers, extended document numbers, every password route), all randoms from the seed incl. counters about to wrap followed by protected traffic across the wrap; hostile 40-byte answers to EXTERNAL AUTHENTICATE: all 320 single-bit mutations (enumerated), cryptogram under another MRZ's keys, genuine cryptogram of another run, correct MAC over a wrong RND.IFD / RND.IC echo or swapped echoes (adversary knowing the keys), the terminal's own cryptogram reflected, the three fields in wrong orders under the right keys, wrong lengths, zeros, error status, wrong password; document numbers with fillers inside; " +
 			"distinct_nontrivial counts distinct (mode, bit, layout, route, document number length, outcome) tuples",
 		Engines:        []core.Engine{ProtoEngine{"bac"}},
 		Assumptions:    []string{"reference chip derives K_seed from its own MRZ_information code (check digits included)"},
@@ -81,7 +81,7 @@ func RegisterAll() {
 	core.Register(&core.Check{
 		Property: "C09",
 		Level:    "exploration",
-		Rule: "fault-free twin of C01: the simulated issuer walks the issuing-profile matrix (CSCA key x DS key from {RSA 1024..4096, 11 curves named/explicit} stratified by run index, RSA PKCS#1/PSS, digests SHA-1..SHA-512 for certificates, signed attributes and DG hashes, SID issuerAndSerial/SKI, LDS SO v0/v1, signing time present/absent and at the DS / CSCA window edges, NULL-less digest AlgorithmIdentifiers, BER indefinite lengths, extra embedded certificates, re-ordered / UTF8 issuer names in the SID, decoy anchors incl. a same-country anchor with the same key identifier listed first, CardSecurity); verdict through the real PassiveAuth on a Document built with the public constructors; " +
+		Rule: "fault-free twin of C01: the simulated issuer walks the issuing-profile matrix (CSCA key x DS key from {RSA 1024..4096, 11 curves named/explicit} stratified by run index, RSA PKCS#1/PSS, digests SHA-1..SHA-512 for certificates, signed attributes and DG hashes, SID issuerAndSerial/SKI, LDS SO v0/v1, signing time present/absent and at the DS / CSCA window edges, NULL-less digest AlgorithmIdentifiers, BER indefinite lengths at each subset of the three enclosing levels, extra embedded certificates, re-ordered / UTF8 issuer names in the SID, decoy anchors incl. a same-country anchor with the same key identifier listed first, CardSecurity); verdict through the real PassiveAuth on a Document built with the public constructors; " +
 			"distinct_nontrivial counts distinct profile tuples",
 		Engines:        []core.Engine{PKIProfileEngine{}},
 		Assumptions:    []string{"explicit EC parameters always carry the cofactor (ICAO Doc 9303-12 requirement)", "RSA keys come from a pre-generated public test key pool"},
@@ -93,7 +93,7 @@ func RegisterAll() {
 	core.Register(&core.Check{
 		Property: "C01",
 		Level:    "exploration",
-		Rule: "byzantine issuer / chip / trust-store operator and at-rest corruption: each run builds a genuine world (accepted first), applies exactly one fault of kinds A1..A10 (DG flip/replace/inject; hash list altered with and without messageDigest; re-signed by own chain / claiming the genuine CSCA / genuine DS with another key / attacker CSCA of another country / foreign DS; anchor removed, same-SKI other key, not CA, no keyCertSign, critical EKU, unknown critical extension; DS without keyUsage/digitalSignature/with unknown critical extension; signing time outside DS or CSCA window by 1 s..2 h; SOD country vs DG1; wrong contentType / messageDigest; the same on CardSecurity; master list tampered / wrong root / unchained signer; random byte substitution in SOD, CardSecurity and master list classified by the issuer's region map), stratified by fault kind x profile; " +
+		Rule: "byzantine issuer / chip / trust-store operator and at-rest corruption: each run builds a genuine world (accepted first), applies exactly one fault of kinds A1..A10 (DG flip/replace/inject; hash list altered with and without messageDigest; re-signed by own chain / claiming the genuine CSCA / genuine DS with another key / attacker CSCA of another country / foreign DS; anchor removed, same-SKI other key, not CA, no keyCertSign, critical EKU, unknown critical extension; DS without keyUsage/digitalSignature/with unknown critical extension; signing time outside DS or CSCA window by 1 s..2 h; SOD country vs DG1; wrong contentType / messageDigest; the same on CardSecurity incl. its own signing time outside its signer's validity; master list tampered / wrong root / unchained signer; random byte substitution in SOD, CardSecurity and master list classified by the issuer's region map), stratified by fault kind x profile; " +
 			"distinct_nontrivial counts distinct (fault, detail, CSCA profile, DS profile, verdict) tuples",
 		Engines:        []core.Engine{PKIForgeryEngine{}, StoreVerifyEngine{}},
 		Assumptions:    []string{"by-construction verdicts: acceptance of a must-reject fault would need a hash collision or a signature forgery", "byte substitutions in signature values may be accepted iff the issuer's own verifier accepts the modified signature; substitutions in unauthenticated fields / length octets carry no demand", "arbitrary CMS blobs that are not mutations of genuine documents are not searched"},
@@ -116,7 +116,7 @@ func RegisterAll() {
 	core.Register(&core.Check{
 		Property: "C15",
 		Level:    "fault_enumeration",
-		Rule: "per exported blob (Document and DocumentEx forms; seeded file subsets; real and synthetic evidence of each of the three kinds) the simulated store applies, completely: every byte position x substitutions {xor 01, xor 80, 00, FF} (all 255 values on the first 80 and last 4 bytes), every truncation length, extension by 1..16 bytes and by a whole second blob; plus foreign magics and newer versions at each nesting level written with valid checksums; fault-free round trip first; " +
+		Rule: "per exported blob (Document and DocumentEx forms; seeded file subsets; files up to 65 000 bytes on a sparse grid; leading-zero evidence values; real and synthetic evidence of each of the three kinds) the simulated store applies, completely: every byte position x substitutions {xor 01, xor 80, 00, FF} (all 255 values on the first 80 and last 4 bytes), every truncation length, extension by 1..16 bytes and by a whole second blob; plus foreign magics and newer versions at each nesting level written with valid checksums; fault-free round trip first; " +
 			"distinct_nontrivial counts distinct (blob form, file count, evidence kinds, size class) blobs; faults_injected counts individual corrupted imports",
 		Engines:        []core.Engine{StoreCorruptEngine{}},
 		Assumptions:    []string{"a lost write (stale but valid older blob) is not detectable by import and is outside the property", "nil and empty byte strings are the same content"},
@@ -167,7 +167,7 @@ func RegisterAll() {
 	core.Register(&core.Check{
 		Property: "C03",
 		Level:    "fault_enumeration",
-		Rule: "active adversary on protected responses: for each suite (3DES, AES-128/192/256) x response shapes, every single-bit flip and every truncation length of a short genuine response is enumerated; then seeded histories (0-40 genuine exchanges, initial SSC zero/random/near-wrap, via NfcSession.DoAPDU or SecureMessaging directly) with one adversarial delivery of kind " +
+		Rule: "active adversary on protected responses: for each suite (3DES, AES-128/192/256) x response shapes, every single-bit flip and every truncation length of a short genuine response is enumerated; then seeded histories (0-40 genuine exchanges, initial SSC zero/random/near-wrap/carry across an inner byte or word boundary, via NfcSession.DoAPDU or SecureMessaging directly) with one adversarial delivery of kind " +
 			"bitflip|bytesub|truncate|do_drop|do_dup|do_reorder|do_nonminimal_len|sw_mismatch|replay|future|cross_session|plaintext|bare_status|random|append|wrong_ssc_rewrap|strip_mac|empty; distinct_nontrivial counts distinct (attack, suite, data-length class, position for bitflip/truncate, status word, SSC mode, path, outcome) tuples in which the attack actually fired",
 		Engines:        []core.Engine{SMRespEngine{}},
 		Assumptions:    []string{"reference chip secure messaging (own retail MAC / CMAC / padding / counter) is the authority for what the chip authenticated", "identical-content acceptances of re-encoded or re-ordered data objects are counted (benign_malleable_accepts), not alarmed: the property's operative clause is 'never different plaintext or a different status' (DESIGN.md 6.3, 10)"},
@@ -180,7 +180,7 @@ func RegisterAll() {
 	core.Register(&core.Check{
 		Property: "C10",
 		Level:    "exploration",
-		Rule: "seeded command histories (1-2000 commands) through the real NfcSession.DoAPDU with a session installed: four ISO cases, short/extended, odd/even INS, data lengths around block, 255/256 and the largest protectable size, Le in {0,1..255,256,257..65535,65536}, initial SSC incl. about-to-wrap, cards with and without extended-length support, arbitrary protected status words; every command is parsed by the strict reference parser and unwrapped by the reference chip; SSC lockstep is checked after every exchange; " +
+		Rule: "seeded command histories (1-2000 commands) through the real NfcSession.DoAPDU with a session installed: four ISO cases, short/extended, odd/even INS, data lengths around block, 255/256 and the largest protectable size, Le in {0,1..255,256,257..65535,65536}, initial SSC incl. about-to-wrap and carries across inner word boundaries, a quarter of the histories sending consecutive pieces of one caller buffer, cards with and without extended-length support, arbitrary protected status words; every command is parsed by the strict reference parser and unwrapped by the reference chip; SSC lockstep is checked after every exchange; " +
 			"distinct_nontrivial counts distinct (suite, SSC mode, ext support, history length bucket, top (INS parity, data, Le class, Lc class) tuple) keys",
 		Engines:        []core.Engine{SMCmdEngine{}},
 		Assumptions:    []string{"DO'85' (odd INS) carries the padding-content indicator 01 like DO'87', as the property statement words it", "reference chip secure messaging written from 9303-11 9.8 is the independent chip-side implementation"},
